@@ -51,6 +51,14 @@ var (
 
 const ojg = "github.com/ohler55/ojg"
 
+// verifRoot is /verif, or $VERIF_ROOT for a scratch copy of the framework (spec, axioms, module file) under development.
+func verifRoot() string {
+	if r := os.Getenv("VERIF_ROOT"); r != "" {
+		return r
+	}
+	return "/verif"
+}
+
 func main() {
 	debug.SetGCPercent(800)
 	flag.Parse()
@@ -199,11 +207,11 @@ func load() (*symex.Engine, error) {
 		}
 	}
 	pats = append(pats, "verif/spec")
-	cfg := &packages.Config{Mode: packages.LoadAllSyntax, Dir: "/verif", BuildFlags: []string{"-tags=verif"},
+	cfg := &packages.Config{Mode: packages.LoadAllSyntax, Dir: verifRoot(), BuildFlags: []string{"-tags=verif"},
 		Env: append(os.Environ(), "GOFLAGS=-mod=mod", "GOPROXY=off", "GOSUMDB=off", "GOTOOLCHAIN=local")}
 	if *flagRepo != "/repo" {
 		// a scratch copy of the repository (testing seeded changes without touching /repo): alternate module file
-		mod, err := os.ReadFile("/verif/go.mod")
+		mod, err := os.ReadFile(verifRoot() + "/go.mod")
 		if err != nil {
 			return nil, err
 		}
@@ -213,7 +221,7 @@ func load() (*symex.Engine, error) {
 		}
 		alt := filepath.Join(dir, "alt.mod")
 		os.WriteFile(alt, []byte(strings.Replace(string(mod), "=> /repo", "=> "+*flagRepo, 1)), 0o644)
-		if sum, err := os.ReadFile("/verif/go.sum"); err == nil {
+		if sum, err := os.ReadFile(verifRoot() + "/go.sum"); err == nil {
 			os.WriteFile(filepath.Join(dir, "alt.sum"), sum, 0o644)
 		}
 		cfg.BuildFlags = append(cfg.BuildFlags, "-modfile="+alt)
@@ -260,7 +268,7 @@ func load() (*symex.Engine, error) {
 			}
 		}
 	}
-	ax, _ := filepath.Glob("/verif/axioms/*.contracts")
+	ax, _ := filepath.Glob(verifRoot() + "/axioms/*.contracts")
 	for _, a := range ax {
 		f, err := contract.ParseFile(a, "")
 		if err != nil {
@@ -292,7 +300,7 @@ type findingsFile struct {
 }
 
 func loadFindings() []Finding {
-	data, err := os.ReadFile("/verif/known_findings.json")
+	data, err := os.ReadFile(verifRoot() + "/known_findings.json")
 	if err != nil {
 		return nil
 	}
